@@ -30,7 +30,7 @@ pub fn gen_message_v1(rng: &mut Rng) -> MessageV1 {
     match rng.below(4) {
         0 | 1 => MessageV1::None,
         2 => MessageV1::Plaintext(PlaintextMessageV1 { mime_type: "text/plain".into(), message: MessageContentsV1::String("m".repeat(rng.below(20) as usize)) }),
-        _ => MessageV1::Plaintext(PlaintextMessageV1 { mime_type: "application/octet-stream".into(), message: MessageContentsV1::Bytes(rng.bytes(rng.below(24) as usize)) }),
+        _ => MessageV1::Plaintext(PlaintextMessageV1 { mime_type: "application/octet-stream".into(), message: MessageContentsV1::Bytes({ let n = rng.below(24) as usize; rng.bytes(n) }) }),
     }
 }
 
@@ -38,7 +38,7 @@ pub fn gen_message_v2(rng: &mut Rng) -> MessageV2 {
     match rng.below(4) {
         0 | 1 => MessageV2::None,
         2 => MessageV2::Plaintext(PlaintextMessageV1 { mime_type: "text/plain".into(), message: MessageContentsV1::String("m".repeat(rng.below(20) as usize)) }),
-        _ => MessageV2::Plaintext(PlaintextMessageV1 { mime_type: "application/octet-stream".into(), message: MessageContentsV1::Bytes(rng.bytes(rng.below(24) as usize)) }),
+        _ => MessageV2::Plaintext(PlaintextMessageV1 { mime_type: "application/octet-stream".into(), message: MessageContentsV1::Bytes({ let n = rng.below(24) as usize; rng.bytes(n) }) }),
     }
 }
 
